@@ -79,10 +79,9 @@ func parseUriParameters(s string, sipUri *SIPURI) error {
 	for _, param := range strings.Split(s, ";") {
 		pos := strings.IndexByte(param, '=')
 		if pos == -1 {
-			if param == "lr" {
-				sipUri.Parameters = append(sipUri.Parameters, KeyValue{Key: "lr", Value: ""})
-			} else {
-				return errors.New("invalid parameter format")
+			// a parameter without a value ("lr", but also any other flag parameter)
+			if len(param) > 0 {
+				sipUri.Parameters = append(sipUri.Parameters, KeyValue{Key: param, Value: ""})
 			}
 		} else {
 			name := param[0:pos]
